@@ -20,6 +20,13 @@ ALL = P.ALL_MESSAGE_TYPES
 UNIVERSE = [1001, 1002, 1003, 1004, 1005, 1006]
 NEVER = 1007  # never used in any request
 PROBED = UNIVERSE + [NEVER]
+# Histories are generated over the canonical ids above; a configuration may map them onto other legal type ids at the API
+# boundary (cfg["ids"]): the ends of the defined range (0, 1, 9999, MAX_MESSAGE_TYPES = 10000, just above it, far above it) and
+# the ends of the int32 type field - the statement quantifies over types, not over the ids this file happens to use.
+IDMAPS = {
+    "edges": {1001: 0, 1002: 1, 1003: 9999, 1004: 10000, 1005: 10001, 1006: 65536, 1007: 5000},
+    "int32": {1001: -1, 1002: -(2 ** 31), 1003: 2 ** 31 - 2, 1004: 3, 1005: 100, 1006: 12, 1007: 7},
+}
 
 RULE = ("A real pyrtma.Client on the simulated network against the real manager. Hypothesis draws sequences (<=25) of subscribe / "
         "unsubscribe / pause_subscription / resume_subscription with lists over a 6-type universe (duplicates, types already in the "
@@ -60,6 +67,8 @@ class C02World:
         import logging
 
         self.cfg = cfg
+        self.fwd = dict(IDMAPS[cfg["ids"]]) if cfg.get("ids") else {}
+        self.back = {v: k for k, v in self.fwd.items()}
         self.cs = ClientSim(timecode=cfg.get("timecode", False), send_msg_timing=cfg.get("timing", True),
                             log_level=logging.ERROR)
         self.trace = []
@@ -106,7 +115,7 @@ class C02World:
         base = self.seq
         for t in PROBED:
             self.seq += 1
-            self.probe.send(P.build(t, P.tag_payload(self.seq, 8), src_mod=30, send_time=float(self.seq),
+            self.probe.send(P.build(self.fwd.get(t, t), P.tag_payload(self.seq, 8), src_mod=30, send_time=float(self.seq),
                                     timecode=self.cs.timecode))
         self.cs.pump()
         self.alive()
@@ -117,7 +126,7 @@ class C02World:
             tag = P.tag_of(f)
             if tag is None or not (base < tag <= self.seq):
                 self.viol("stale-or-invented", f"client connection received probe frame {f.brief()} outside the current probe round")
-        types = [f.msg_type for f in got]
+        types = [self.back.get(f.msg_type, f.msg_type) for f in got]
         if len(types) != len(set(types)):
             self.viol("duplicate-delivery", f"a probe message was delivered twice to the client: {types}")
         self.probe.take()
@@ -127,6 +136,9 @@ class C02World:
         c = self.client
         sub = c.subscribed_types
         paused = c.paused_subscribed_types
+        if self.back:
+            sub = {self.back.get(t, t) for t in sub}
+            paused = {self.back.get(t, t) for t in paused}
         return sub, paused
 
     def expect_delivered(self, sub):
@@ -205,7 +217,7 @@ class C02World:
         def arg():
             # the argument as the caller passes it: any iterable of ints (list, tuple, set, generator, iterator), possibly
             # with one entry that cannot be a message type
-            items = list(types)
+            items = [self.fwd.get(t, t) for t in types]
             if "bad" in op:
                 items.insert(op.get("bad_at", 0) % (len(items) + 1), BAD_ENTRIES[op["bad"]])
             kind = op.get("container", "list")
@@ -234,7 +246,7 @@ class C02World:
                 elif name in CTX:
                     entered = False
                     try:
-                        with getattr(c, name)(list(types)):
+                        with getattr(c, name)([self.fwd.get(t, t) for t in types]):
                             entered = True
                             self.cs.pump()
                             if op.get("probe_inside"):
@@ -349,7 +361,8 @@ def run_case(cfg, ops, res: Result = None):
 
 
 CFGS = [{"timecode": False, "timing": True}, {"timecode": True, "timing": False}, {"timecode": False, "timing": False, "twin": True},
-        {"timecode": False, "timing": False, "logger": True}]
+        {"timecode": False, "timing": False, "logger": True},
+        {"timecode": False, "timing": True, "ids": "edges"}, {"timecode": True, "timing": True, "ids": "int32"}]
 
 
 def st_types():
@@ -387,7 +400,7 @@ def shard(seed, n, max_len, quick, idx):
         if len(res.samples) < 2:
             res.sample({"cfg": CFGS[ci], "ops": ops[:12]})
 
-    hyp_run(body, st.tuples(st.sampled_from([0, 1, 0, 1, 2, 3]), st.lists(st_op(), min_size=3, max_size=max_len)), seed, n, res)
+    hyp_run(body, st.tuples(st.sampled_from([0, 1, 0, 1, 2, 3, 4, 4, 5]), st.lists(st_op(), min_size=3, max_size=max_len)), seed, n, res)
     # exhaustive sub-domain (thorough: complete; quick: the slice idx of 16*8)
     res.merge(enumerate_small(idx, 16, 1))
     return res
